@@ -40,8 +40,9 @@ def store_actions(fv, droplet_names, time_name, tracks_name="tracks"):
         if not (isinstance(c.func, ast.Attribute) and c.func.attr == "append"):
             continue
         recv = U(c.func.value)
-        if recv == tracks_name and len(c.args) == 1 and isinstance(c.args[0], ast.Call) and (dotted(c.args[0].func) or "").endswith("DropletTrack"):
-            inner = c.args[0]
+        arg0 = fv.expand(c.args[0], c) if (len(c.args) == 1 and isinstance(c.args[0], ast.Name)) else (c.args[0] if c.args else None)
+        if recv == tracks_name and len(c.args) == 1 and isinstance(arg0, ast.Call) and (dotted(arg0.func) or "").endswith("DropletTrack"):
+            inner = arg0
             d = kwarg(inner, "droplets") or (inner.args[0] if inner.args else None)
             t = kwarg(inner, "times") or (inner.args[1] if len(inner.args) > 1 else None)
             dd = d.elts[0] if isinstance(d, ast.List) and len(d.elts) == 1 else None
@@ -101,33 +102,25 @@ def check_overlap_matcher(ctx, rules=("PATHCOUNT", "TIME", "CONT")):
                        f"`{U(c)[:80]}` does not store the current droplet `{dv}` with the frame time `{time_p}`")
     # continuation rule
     if "CONT" in rules:
+        from ..astutil import filtered_collection, symbolic_paths, truth_of
+
         ext = [c for c, kind, d, t in stores if kind == "extend"]
-        si = stmt_index(fv)
+        new = [c for c, kind, d, t in stores if kind == "new"]
         ok = False
         detail = "no continuation store"
         if len(ext) == 1:
             c = ext[0]
-            g = si.guards(c)
             recv = U(c.func.value)
             coll = recv[:-3] if recv.endswith("[0]") else None
-            tests = [(U(t), p) for t, p in g if any(x is t for x in ast.walk(lp))]
-            ok = coll is not None and (f"len({coll}) == 1", True) in tests
-            detail = f"continuation guarded by {tests}, receiver {recv}"
-            # the candidate list: tracks of tracks_alive whose last droplet overlaps the droplet
-            fill = [x for x in fv.calls() if isinstance(x.func, ast.Attribute) and x.func.attr == "append" and U(x.func.value) == coll]
-            okf = False
-            if len(fill) == 1:
-                gf = si.guards(fill[0])
-                lpf = si.enclosing(fill[0], (ast.For,))
-                okf = lpf is not None and U(lpf[0].iter) == alive_p and isinstance(lpf[0].target, ast.Name) and U(fill[0].args[0]) == lpf[0].target.id
-                okf = okf and any(p and isinstance(t, ast.Call) and isinstance(t.func, ast.Attribute) and t.func.attr == "overlaps"
-                                  and U(t.func.value) == f"{lpf[0].target.id}.last" and t.args and U(t.args[0]) == dv for t, p in gf)
-                # the list is fresh per droplet
-                init = [s for s in ast.walk(lp) if isinstance(s, (ast.Assign, ast.AnnAssign)) and U(s.targets[0] if isinstance(s, ast.Assign) else s.target) == coll]
-                okf = okf and len(init) == 1 and isinstance(init[0].value, ast.List) and not init[0].value.elts
-            ok = ok and okf
-            if not okf:
-                detail += "; the list of overlapping alive tracks is not (fresh per droplet, filled with every alive track whose last droplet overlaps it)"
+            detail = f"continuation receiver `{recv}`"
+            if coll is not None:
+                test = f"len({coll}) == 1"
+                ext_ok = all(truth_of(dec, test) is True for dec, _ in symbolic_paths(fv, c, [c.args[0]], stop=(coll,)))
+                new_ok = bool(new) and all(truth_of(dec, test) is False for nc in new for dec, _ in symbolic_paths(fv, nc, [nc.args[0]], stop=(coll,)))
+                fc = filtered_collection(fv, coll, c)
+                okf = fc is not None and fc[0] == alive_p and fc[1] == f"_.last.overlaps({dv}, grid=grid)" and any(x is fc[2] for x in ast.walk(lp))
+                ok = ext_ok and new_ok and okf
+                detail = f"continuation iff `{test}`: {ext_ok}; new track otherwise: {new_ok}; candidate list = alive tracks whose last droplet overlaps the droplet (fresh per droplet): {okf} ({fc[:2] if fc else None})"
         ctx.decide(ok, "CONT", site, (fi, ext[0]) if ext else fi,
                    "a droplet continues a track iff exactly one alive track's last droplet overlaps it; otherwise it starts a new track",
                    "single-overlap continuation rule not satisfied: " + detail)
@@ -158,7 +151,7 @@ def check_distance_matcher(ctx, rules=("PATHCOUNT", "TIME", "INDEX", "GREEDY", "
     pair = None
     if um:
         c = um[0]
-        a0 = c.args[0] if c.args else None
+        a0 = fv.expand(c.args[0], c, stop=(D,), allow_mutated=True) if c.args else None
         glob = isinstance(a0, ast.Call) and (((fv.callee(a0) or "").endswith("numpy.argmin") and len(a0.args) == 1 and U(a0.args[0]) == D and not a0.keywords)
                                              or (isinstance(a0.func, ast.Attribute) and a0.func.attr == "argmin" and U(a0.func.value) == D and not a0.args and not a0.keywords))
         shp = len(c.args) > 1 and U(c.args[1]) == f"{D}.shape"
@@ -252,11 +245,12 @@ def check_distance_matcher(ctx, rules=("PATHCOUNT", "TIME", "INDEX", "GREEDY", "
     if "CUTOFF" in rules:
         cut = None
         for s in fv.statements():
-            if isinstance(s, ast.Assign) and isinstance(s.targets[0], ast.Subscript) and U(s.targets[0].value) == D and isinstance(s.targets[0].slice, ast.Compare):
+            if isinstance(s, ast.Assign) and isinstance(s.targets[0], ast.Subscript) and U(s.targets[0].value) == D and U(s.value) in ("np.inf", "math.inf") \
+                    and isinstance(fv.expand(s.targets[0].slice, s, stop=(D,), allow_mutated=True), ast.Compare):
                 cut = s
         ok = False
         if cut is not None:
-            cp = compare_parts(cut.targets[0].slice)
+            cp = compare_parts(fv.expand(cut.targets[0].slice, cut, stop=(D,), allow_mutated=True))
             ok = cp is not None and U(cp[0]) == D and isinstance(cp[1], ast.Gt) and U(cp[2]) == "max_dist" and U(cut.value) in ("np.inf", "math.inf")
             wl = [s for s in fv.statements() if isinstance(s, ast.While)]
             ok = ok and bool(wl) and fv.dominates(cut, wl[0]) and fv.dominates(st, cut)
@@ -331,13 +325,17 @@ def check_main_loop(ctx, rules=("FLOW", "TIME")):
         init = [s for s in ov.statements() if isinstance(s, ast.Assign) and U(s.targets[0]) == "t_last" and not any(x is s for x in ast.walk(lp))]
         ok_init = len(init) == 1 and isinstance(init[0].value, ast.Constant) and init[0].value.value is None
         ok_alive = False
-        if len(alive) == 1 and len(calls) == 1:
-            v = alive[0].value
-            ok_alive = isinstance(v, ast.ListComp) and len(v.generators) == 1 and U(v.generators[0].iter) == "tracks" and len(v.generators[0].ifs) == 1
-            if ok_alive:
-                tn = U(v.generators[0].target)
-                ok_alive = U(v.elt) == tn and U(v.generators[0].ifs[0]) in (f"{tn}.end == t_last", f"t_last == {tn}.end")
-            ok_alive = ok_alive and ov.dominates(alive[0], calls[0]) and (not tl or ov.dominates(calls[0], tl[0]))
+        if len(calls) == 1:
+            from ..astutil import filtered_collection
+
+            a_al = arg_or_kw(calls[0], 1, ms["overlap"].params[1])
+            if a_al is not None and isinstance(a_al, ast.Name):
+                fc = filtered_collection(ov, a_al.id, calls[0])
+                if fc is not None:
+                    src, cond, dstmt = fc
+                    ok_alive = src == "tracks" and cond in ("_.end == t_last", "t_last == _.end") and any(x is dstmt for x in ast.walk(lp)) \
+                        and (not tl or ov.dominates(calls[0], tl[0]))
+                    alive = [dstmt]
         ctx.decide(ok_alive and ok_init, "FLOW", site + ":alive", (outer, alive[0]) if alive else (outer, lp),
                    "alive tracks = tracks ending exactly at the previous frame's time, computed before matching; t_last updated after",
                    "the alive set is not [track for track in tracks if track.end == t_last] computed before the matcher runs and before t_last is updated")
@@ -356,7 +354,8 @@ def check_main_loop(ctx, rules=("FLOW", "TIME")):
     items = m.method(ci, "items")
     if items is not None and "TIME" in rules:
         rets = [s for s in ast.walk(items.node) if isinstance(s, ast.Return) and s.value is not None]
-        ok = len(rets) == 1 and U(rets[0].value) == "zip(self.times, self.emulsions)"
+        iv_ = view(m, items)
+        ok = len(rets) == 1 and U(iv_.expand(rets[0].value, rets[0])) == "zip(self.times, self.emulsions)"
         ctx.decide(ok, "TIME", f"{items.qualname}", (items, rets[0]) if rets else items, "items() pairs times[i] with emulsions[i]",
                    "EmulsionTimeCourse.items() does not yield zip(self.times, self.emulsions)")
 
